@@ -16,7 +16,8 @@ NAMED_PERIOD = {"std::chrono::nanoseconds": (1, 10 ** 9), "std::chrono::microsec
 NAMED20 = {"std::chrono::days": (86400, 1), "std::chrono::weeks": (604800, 1), "std::chrono::months": (2629746, 1), "std::chrono::years": (31556952, 1)}
 TARGETS = [("QuantityD<Seconds>", "au::QuantityD<au::Seconds>"), ("QuantityI<Milli<Seconds>>", "au::Quantity<au::Milli<au::Seconds>, int>"), ("Quantity<Hours,int>", "au::Quantity<au::Hours, int>"),
            ("QuantityI64<Nano<Seconds>>", "au::Quantity<au::Nano<au::Seconds>, int64_t>"), ("QuantityF<Minutes>", "au::Quantity<au::Minutes, float>"), ("QuantityD<Meters>", "au::QuantityD<au::Meters>"),
-           ("Quantity<Seconds,int8_t>", "au::Quantity<au::Seconds, int8_t>")]
+           ("Quantity<Seconds,int8_t>", "au::Quantity<au::Seconds, int8_t>"), ("QuantityF<Milli<Seconds>>", "au::Quantity<au::Milli<au::Seconds>, float>"),
+           ("Quantity<Micro<Seconds>,double>", "au::Quantity<au::Micro<au::Seconds>, double>")]
 
 
 def dtype(rep, num, den):
@@ -28,6 +29,10 @@ def plan(tier):
     durs = []
     for rep in REPS:
         for name, n, d in PERIODS:
+            durs.append({"desc": f"duration<{rep},{n}/{d}>", "type": dtype(rep, n, d), "rep": rep, "num": n, "den": d})
+    # the remaining integral widths / spellings and long double, on a few periods (as_quantity(d) must keep exactly d's rep)
+    for rep in ("uint64_t", "long long", "unsigned long long", "uint32_t", "int16_t", "uint8_t", "long double", "long", "unsigned long"):
+        for name, n, d in (("milli", 1, 1000), ("one", 1, 1), ("min", 60, 1)):
             durs.append({"desc": f"duration<{rep},{n}/{d}>", "type": dtype(rep, n, d), "rep": rep, "num": n, "den": d})
     for t in NAMED:
         n, d = NAMED_PERIOD[t]
@@ -155,6 +160,10 @@ def run(chk, which="C17"):
                     chk.violation(f'C17|{w["what"]}|{ev["desc"]}|x={w["a"]},{w["b"]}', msg=f'{fl} {std}: {ev["desc"]}: `{w["what"]}` with counts {w["a"]}, {w["b"]} disagrees with {"the duration itself" if ev["ev"] == "droundtrip" else "chrono own result"}')
                 if len(chk.cov["samples"]) < 8 and ev["ev"] == "dmixed" and ev["evals"]:
                     chk.sample({"pair": ev["desc"], "config": f"{fl} {std}", "evaluations": ev["evals"], "skipped_because_chrono_overflows": ev["skipped_overflow"]})
+            elif ev["ev"] == "dacceptval":
+                evals += ev["evals"]
+                if ev["mm"]:
+                    chk.violation(f'C17|accepted_value|{ev["desc"]}|target={ev["target"]}', msg=f'{fl} {std}: {ev["desc"]} -> {ev["target"]}: the implicitly converted duration differs (bitwise) from the converted corresponding quantity for {ev["mm"]} of {ev["evals"]} counts, first count {ev["count"]}')
             elif ev["ev"] == "daccept":
                 evals += 1
                 if ev["duration_convertible"] != ev["quantity_convertible"]:
@@ -173,7 +182,7 @@ def run(chk, which="C17"):
     chk.cov["rule"] = ("duration types: Rep in {int32,int64,float,double} x 14 periods (nano..week, 1/60, 1001/30000, 1/1000000007, non-reduced 2/4, 10^18) + the six named chrono typedefs (specialised mapping) + under C++20 days/weeks/months/years; "
                        "per type: static facts (rep, unit = seconds x Period via the reifier, reduced period of as_chrono_duration) and count-preserving round trips on boundary/random counts; "
                        "sampled ordered pairs: the six comparisons both ways, +, - against chrono's own result on operand pairs where chrono's computation cannot overflow (128-bit oracle); "
-                       "implicit acceptance compared with the corresponding quantity for 7 target quantity types; distinct_nontrivial = distinct (kind, instance)")
+                       "implicit acceptance compared with the corresponding quantity for 9 target quantity types (and, where accepted, the converted value equals the converted corresponding quantity bitwise); distinct_nontrivial = distinct (kind, instance)")
     # every duration type must round-trip: as_quantity(d), the conversion back and the acceptance traits have to compile for each of
     # them (only the *mixed pairs* are subject to the implicit-conversion policy and may legitimately be refused)
     seen_rej = set()
